@@ -141,6 +141,15 @@ func genSpecials() []descCase {
 		{"interface a.b\nmethod M() -> ()\nerror E ?(a: int)\n", "x-nonstruct-error"},
 		{"interface a.b\nmethod M() -> ()\nerror E [](a: int)\n", "x-nonstruct-error"},
 		{"interface a.b\ntype T (a: int)\nmethod M() -> ()\nerror E T\n", "x-nonstruct-error"},
+		// rejected by the parser (one name space for types, methods and errors): the generator must fail on them
+		{"interface a.b\nerror Busy (since: int)\nmethod Busy() -> (busy: bool)\n", "x-dup-member"},
+		{"interface a.b\nmethod Busy() -> ()\nerror Busy\n", "x-dup-member"},
+		{"interface a.b\nerror Busy\ntype Busy (a: int)\nmethod M() -> ()\n", "x-dup-member"},
+		{"interface a.b\ntype Busy (a: int)\nmethod Busy() -> ()\n", "x-dup-member"},
+		{"interface a.b\nerror Busy\nerror Busy (a: int)\nmethod M() -> ()\n", "x-dup-member"},
+		{"interface a.b\nmethod M() -> ()\nmethod M(a: int) -> ()\n", "x-dup-member"},
+		{"interface a.b\ntype T (a: int)\nerror E\n", "x-no-method"},
+		{"interface a.b\nmethod M(a: int, b) -> ()\n", "x-mixed-list"},
 		{"interface a.b\nmethod M(a: int, a: string) -> ()\n", "x-dup-field"},
 		{"interface a.b\nmethod M() -> (a: int, a: int)\n", "x-dup-field"},
 		{"interface a.b\nmethod M(a: (b: int, b: int)) -> ()\n", "x-dup-field"},
